@@ -266,27 +266,10 @@ theorem layout_clusters_order_independent (package : Str) (cs : List ClassInfo)
 
 /-! ## 2. type priority after `set()` de-duplication -/
 
-/-- `ConverterFactory.sort_types`, full strength: the result does not depend on
-the order in which `list(set(native types))` delivers the types. -/
-def sort_types_perm_invariant : Prop :=
-  ∀ ts ts' : List Str, ts ~ ts' → sortTypes ts = sortTypes ts'
-
-/-- False: `bytes` and `object` share priority 0 in `__PYTHON_TYPES_SORTED__`
-(regenerated table), the sort is stable, so their relative order is whatever the
-set iteration gave. -/
-theorem sort_types_perm_invariant_false : ¬ sort_types_perm_invariant := by
-  intro h
-  have key := h [['b', 'y', 't', 'e', 's'], ['o', 'b', 'j', 'e', 'c', 't']]
-                [['o', 'b', 'j', 'e', 'c', 't'], ['b', 'y', 't', 'e', 's']] (List.Perm.swap _ _ _)
-  unfold sortTypes sortTypesBy pySortedByNat at key
-  simp only [List.length_cons, List.length_nil, Nat.lt_irrefl, if_false] at key
-  rw [List.mergeSort_of_pairwise (by decide), List.mergeSort_of_pairwise (by decide)] at key
-  revert key
-  decide
-
-/-- True whenever no two different types present share a priority. -/
-theorem sort_types_perm_invariant_partial {ts ts' : List Str} (hp : ts ~ ts')
-    (hd : ∀ a b, a ∈ ts → b ∈ ts → typePriority a = typePriority b → a = b) :
+/-- any list of names whose sort keys are pairwise different is sorted to the same
+list whatever its order -/
+theorem sort_types_perm_invariant_of_distinct_keys {ts ts' : List Str} (hp : ts ~ ts')
+    (hd : ∀ a b, a ∈ ts → b ∈ ts → typeKey a = typeKey b → a = b) :
     sortTypes ts = sortTypes ts' := by
   unfold sortTypes sortTypesBy
   rw [hp.length_eq]
@@ -297,29 +280,55 @@ theorem sort_types_perm_invariant_partial {ts ts' : List Str} (hp : ts ~ ts')
     match ts, ts', hp, hl with
     | [], ts', hp, _ => exact hp.symm.eq_nil.symm ▸ rfl
     | [a], ts', hp, _ => exact (List.perm_singleton.1 hp.symm).symm ▸ rfl
-  · exact pySortedByNat_perm typePriority hp hd
-
-example : ∀ a b, a ∈ [['s', 't', 'r'], ['i', 'n', 't'], ['b', 'y', 't', 'e', 's']] →
-    b ∈ [['s', 't', 'r'], ['i', 'n', 't'], ['b', 'y', 't', 'e', 's']] →
-    typePriority a = typePriority b → a = b := by
-  intro a b ha hb
-  simp only [List.mem_cons, List.not_mem_nil, or_false] at ha hb
-  rcases ha with rfl | rfl | rfl <;> rcases hb with rfl | rfl | rfl <;> decide
+  · exact pySortedByNat_perm typeKey hp hd
 
 /-- Decision table over the live tables: among the Python types the XSD builtins
-map to (`DataType`), the *only* pair with equal priority is `bytes` / `object`. -/
+map to (`DataType`), the only pair with equal *table priority* is `bytes` / `object` … -/
 theorem priority_ties_bytes_object :
     priorityTies Tables.dataTypeTypeNames
       = [(['b', 'y', 't', 'e', 's'], ['o', 'b', 'j', 'e', 'c', 't']),
          (['o', 'b', 'j', 'e', 'c', 't'], ['b', 'y', 't', 'e', 's'])] := by
   decide
 
+/-- … and the sort key `(priority, tp is object)` separates them: no two native
+types share a key. -/
+theorem native_type_keys_distinct : keyTies Tables.dataTypeTypeNames = [] := by decide
+
+theorem eq_of_key_eq_of_native {a b : Str} (ha : a ∈ Tables.dataTypeTypeNames)
+    (hb : b ∈ Tables.dataTypeTypeNames) (h : typeKey a = typeKey b) : a = b := by
+  apply Classical.byContradiction
+  intro hne
+  have hmem : (a, b) ∈ keyTies Tables.dataTypeTypeNames := by
+    unfold keyTies tiesBy
+    rw [List.mem_flatMap]
+    refine ⟨a, ha, List.mem_map.2 ⟨b, List.mem_filter.2 ⟨hb, ?_⟩, rfl⟩⟩
+    simp [hne, h]
+  rw [native_type_keys_distinct] at hmem
+  cases hmem
+
+/-- **`ConverterFactory.sort_types` after `Attr.native_types`, full strength**: for
+the Python types `Attr.native_types` can yield (the types of the XSD builtins,
+regenerated table) the result does not depend on the order in which
+`list(set(...))` delivers them.  (Before the repair `bytes` and `object` tied at
+priority 0 and this failed for `[bytes, object]`; nothing remains excluded.
+For arbitrary class names — enum classes share key 0 — see
+`sort_types_perm_invariant_of_distinct_keys`; such lists never pass through a set.) -/
+theorem sort_types_perm_invariant {ts ts' : List Str} (hp : ts ~ ts')
+    (hn : ∀ t ∈ ts, t ∈ Tables.dataTypeTypeNames) : sortTypes ts = sortTypes ts' :=
+  sort_types_perm_invariant_of_distinct_keys hp
+    (fun a b ha hb h => eq_of_key_eq_of_native (hn a ha) (hn b hb) h)
+
+/-- the former counterexample, both ways round -/
+example : sortTypes [['b', 'y', 't', 'e', 's'], ['o', 'b', 'j', 'e', 'c', 't']]
+    = sortTypes [['o', 'b', 'j', 'e', 'c', 't'], ['b', 'y', 't', 'e', 's']] :=
+  sort_types_perm_invariant (List.Perm.swap _ _ _) (by decide)
+
 /-! ## 3. sequence / choice identifiers taken from `id()` -/
 
-/-- **Renumbering forgets `id()`**: for every class, relabelling the ids found in
-the attr paths by any injective, zero-preserving map leaves the occurrence
-bounds, the final sequence numbers and the choice grouping unchanged — provided
-the sequence numbers read from the base classes are the same. -/
+/-- **Renumbering forgets `id()`** (one class): relabelling the ids found in the
+attr paths by any injective, zero-preserving map leaves the occurrence bounds, the
+final sequence numbers and the choice grouping unchanged, given the numbers of
+the base classes. -/
 theorem renumber_id_invariant {f : Int → Int} (hf : GoodRelabel f)
     (base : List (Option Int)) (attrs : List SeqAttr) :
     seqOutput (sequencePipeline base (attrs.map (relabelAttr f)))
@@ -328,33 +337,26 @@ theorem renumber_id_invariant {f : Int → Int} (hf : GoodRelabel f)
 
 example : GoodRelabel (fun x => 3 * x) := ⟨fun a b h => by omega, fun x => by omega⟩
 
-/-- Full strength: also the base classes' `restrictions.sequence` values may
-still be raw ids when `ResetAttributeSequenceNumbers` reads them (this is what
-happens when the base class is looked up while it is itself being finalised). -/
-def renumber_id_independent : Prop :=
-  ∀ (f : Int → Int), GoodRelabel f → ∀ (base : List (Option Int)) (attrs : List SeqAttr),
-    seqOutput (sequencePipeline (base.map (Option.map f)) (attrs.map (relabelAttr f)))
-      = seqOutput (sequencePipeline base attrs)
+/-- **Full strength, whole inheritance chain**: `ResetAttributeSequenceNumbers`
+renumbers the base classes before it reads their numbers, so relabelling *every*
+id of *every* class of the chain (root first) — what another process does —
+changes nothing in what is generated for any class of the chain.  (Before the
+repair a base class still being finalised handed its raw ids to
+`find_next_sequence_number` and this failed; nothing remains excluded for
+single-inheritance chains.) -/
+theorem renumber_id_independent {f : Int → Int} (hf : GoodRelabel f)
+    (chain : List (List SeqAttr)) :
+    (sequencePipelineChain (chain.map (List.map (relabelAttr f)))).map seqOutput
+      = (sequencePipelineChain chain).map seqOutput :=
+  sequencePipelineChain_relabel hf chain
 
-/-- False: `find_next_sequence_number` takes `max` of the base numbers, so a raw
-`id()` in the base leaks into the subclass' sequence numbers. -/
-theorem renumber_id_independent_false : ¬ renumber_id_independent := by
-  intro h
-  have := h (fun x => 3 * x) ⟨fun a b h => by omega, fun x => by omega⟩ [some 1000]
-    [{ path := [⟨['s'], 7, 1, 5⟩] }, { path := [⟨['s'], 7, 1, 5⟩] }]
-  revert this
+/-- the former counterexample (base with a repeated sequence, subclass with one):
+the subclass gets number 2 whatever the ids -/
+example : (sequencePipelineChain
+      [[{ path := [⟨['s'], 1000, 1, 5⟩] }, { path := [⟨['s'], 1000, 1, 5⟩] }],
+       [{ path := [⟨['s'], 7, 1, 5⟩] }, { path := [⟨['s'], 7, 1, 5⟩] }]]).map seqOutput
+    = [[(1, 5, some 1, none), (1, 5, some 1, none)], [(1, 5, some 2, none), (1, 5, some 2, none)]] := by
   decide
-
-/-- The provable part is `renumber_id_invariant`: base numbers untouched by the relabelling. -/
-theorem renumber_id_independent_partial {f : Int → Int} (hf : GoodRelabel f)
-    (base : List (Option Int)) (attrs : List SeqAttr)
-    (hbase : base.map (Option.map f) = base) :
-    seqOutput (sequencePipeline (base.map (Option.map f)) (attrs.map (relabelAttr f)))
-      = seqOutput (sequencePipeline base attrs) := by
-  rw [hbase]; exact sequencePipeline_relabel hf base attrs
-
-example : ([some 1, none, some 0] : List (Option Int)).map (Option.map (fun x => if x = 1 then 1 else 3 * x))
-    = [some 1, none, some 0] := by decide
 
 /-! ## 4. invocation routes -/
 
